@@ -15,8 +15,20 @@ CHECKS = {
              "mathematical (exact for Python); constraint objects are not mutated after construction; termination not proved.",
     ),
 }
+CHECKS["C19"] = dict(
+    category="proof",
+    technique="contract-based deductive verification: exception-escape contract over a fully symbolic tag (z3 strings), assumed builtin contracts",
+    text="SubclassJSONSerializer.from_json is executed symbolically for a dict whose type tag ranges over the whole JSON value ADT "
+         "(absent/null/bool/any int/float/any string/list/dict); every exceptional exit before the hand-over must be a "
+         "JSONSerializationError of the documented class and a normal exit must be a hand-over to a SubclassJSONSerializer "
+         "subclass or a registered deserialiser. Loop-free, so the path enumeration is a complete decision. A native corpus run "
+         "re-validates the assumed builtin contracts on every run (bounded, not counted as proof).",
+    note="Assumed contracts of str.rsplit, tuple unpacking, importlib.import_module (ValueError/TypeError/ModuleNotFoundError or a module; "
+         "importing does not run failing user code), getattr, issubclass, __name__ on non-classes; pyvc semantics; z3 string solver.",
+)
 NOT_APPLICABLE = {
     "C05": "decided by SQLAlchemy/SQLite semantics acting on generated code; no krrood function body carries it, so no contract within reach can express it (DESIGN.md §4)",
 }
-for _p in ["C01", "C02", "C03", "C04", "C06", "C07", "C08", "C10", "C11", "C12", "C13", "C14", "C15", "C16", "C17", "C18", "C19", "C20"]:
-    NOT_APPLICABLE.setdefault(_p, PENDING)
+for _p in ["C%02d" % i for i in range(1, 21)]:
+    if _p not in CHECKS:
+        NOT_APPLICABLE.setdefault(_p, PENDING)
